@@ -32,12 +32,14 @@ type Feat struct {
 	Refs                                                             bool // reference edges between resources
 	Deprecated                                                       bool // deprecated spellings (C19)
 	Dense                                                            bool // more resources and referrers per layer
+	Siblings                                                         bool // tree-shaped (not only chain-shaped) layerings
+	SiblingHeavy, AffixHeavy                                         bool // most trees have siblings / most layers have a prefix or suffix
 	MaxLayers                                                        int
 }
 
 func allFeat() Feat {
 	return Feat{Prefix: true, Suffix: true, Namespace: true, Labels: true, Annotations: true, Images: true, Replicas: true,
-		PatchSM: true, PatchJSON: true, Replacements: false, Generators: true, Refs: true, MaxLayers: 3}
+		PatchSM: true, PatchJSON: true, Replacements: false, Generators: true, Refs: true, Siblings: true, MaxLayers: 3}
 }
 
 type GenRes struct {
@@ -89,7 +91,47 @@ type Tree struct {
 	Feat     Feat
 	Notes    []string
 	BaseLast bool // list the child directory after the files (needed to compare with the deprecated `bases`)
-	nextID   int
+	// Parent[i] = the layer whose kustomization lists layer i (-1 for the top, the last layer).  A chain has
+	// Parent[i] = i+1; a layer with several children makes those children SIBLINGS (each with its own directives).
+	Parent []int
+	nextID int
+}
+
+// Chain: the layers a resource loaded by layer li passes through, innermost first.
+func (t *Tree) Chain(li int) []int {
+	var out []int
+	for li >= 0 && li < len(t.Layers) {
+		out = append(out, li)
+		if li >= len(t.Parent) {
+			li++
+			if li >= len(t.Layers) {
+				break
+			}
+			continue
+		}
+		li = t.Parent[li]
+	}
+	return out
+}
+
+// Visible: is a resource loaded by layer from part of what layer at sees?
+func (t *Tree) Visible(from, at int) bool {
+	for _, l := range t.Chain(from) {
+		if l == at {
+			return true
+		}
+	}
+	return false
+}
+
+func (t *Tree) children(li int) []int {
+	var out []int
+	for j := range t.Layers {
+		if j < len(t.Parent) && t.Parent[j] == li {
+			out = append(out, j)
+		}
+	}
+	return out
 }
 
 var nameFamilies = [][]string{
@@ -161,6 +203,21 @@ func apiVersionOf(kind string) string {
 		return "example.com/v1"
 	}
 	return "v1"
+}
+
+// versionedScope: kinds whose scope the built-in schema knows for SOME versions only.  A version the schema does not
+// know is "not certainly cluster-scoped", so the namespace directive applies to it (documented fall-back).
+var versionedScope = map[string]bool{
+	"scheduling.k8s.io/v1/PriorityClass": true, "scheduling.k8s.io/v1alpha1/PriorityClass": false,
+	"storage.k8s.io/v1/VolumeAttachment": true, "storage.k8s.io/v1alpha1/VolumeAttachment": false,
+}
+
+func (g *GenRes) clusterScoped() bool {
+	av, _ := g.Obj["apiVersion"].(string)
+	if v, ok := versionedScope[av+"/"+g.Kind]; ok {
+		return v
+	}
+	return isClusterScoped(g.Kind)
 }
 
 func isClusterScoped(kind string) bool {
@@ -313,10 +370,17 @@ func (t *Tree) mkWorkload(r *rand.Rand, layer int, kind, name, ns string, podLab
 
 func (t *Tree) mkSimple(r *rand.Rand, layer int, kind, name, ns string) *GenRes {
 	id := t.newID()
-	if isClusterScoped(kind) {
+	av := apiVersionOf(kind)
+	switch kind {
+	case "PriorityClass":
+		av = "scheduling.k8s.io/" + pickS(r, []string{"v1", "v1alpha1"})
+	case "VolumeAttachment":
+		av = "storage.k8s.io/" + pickS(r, []string{"v1", "v1alpha1"})
+	}
+	if isClusterScoped(kind) || versionedScope[av+"/"+kind] {
 		ns = ""
 	}
-	o := Obj{"apiVersion": apiVersionOf(kind), "kind": kind, "metadata": meta(id, name, ns, nil)}
+	o := Obj{"apiVersion": av, "kind": kind, "metadata": meta(id, name, ns, nil)}
 	switch kind {
 	case "ConfigMap":
 		o["data"] = Obj{"k": "v", "k2": fmt.Sprint(freeValue(r, t.Feat.Adversarial))}
@@ -333,6 +397,10 @@ func (t *Tree) mkSimple(r *rand.Rand, layer int, kind, name, ns string) *GenRes 
 		o["spec"] = Obj{"free": freeValue(r, t.Feat.Adversarial), "items": []interface{}{Obj{"name": "a", "v": float64(1)}, Obj{"name": "b", "v": float64(2)}}}
 	case "CustomResourceDefinition":
 		o["spec"] = Obj{"group": "example.com", "names": Obj{"kind": "MyKind", "plural": "mykinds"}, "scope": "Namespaced"}
+	case "PriorityClass":
+		o["value"] = float64(10)
+	case "VolumeAttachment":
+		o["spec"] = Obj{"attacher": "x", "nodeName": "n", "source": Obj{"persistentVolumeName": "pv"}}
 	}
 	return t.addRes(layer, kind, name, ns, o)
 }
@@ -535,6 +603,15 @@ func (t *Tree) genReferrers(r *rand.Rand, li int, here []*GenRes, uniq func(kind
 func genTree(r *rand.Rand, f Feat) *Tree {
 	t := &Tree{Feat: f}
 	nl := 1 + r.Intn(f.MaxLayers)
+	// topology: mostly a chain; sometimes a layer is listed by a later layer than the next one, which makes siblings
+	t.Parent = make([]int, nl)
+	for i := range t.Parent {
+		t.Parent[i] = i + 1
+		if i+2 < nl && f.Siblings && (r.Intn(3) == 0 || (f.SiblingHeavy && r.Intn(3) > 0)) {
+			t.Parent[i] = i + 2 + r.Intn(nl-i-2)
+		}
+	}
+	t.Parent[nl-1] = -1
 	fam := nameFamilies[r.Intn(len(nameFamilies))]
 	nsPool := []string{"", "", "ns1", "ns2"}
 	usedID := map[string]bool{}
@@ -577,7 +654,8 @@ func genTree(r *rand.Rand, f Feat) *Tree {
 				}
 				here = append(here, t.mkSimple(r, li, kind, name, ns))
 			case 6:
-				kind := pickS(r, []string{"MyKind", "OtherKind", "Role", "ClusterRole", "Namespace", "CustomResourceDefinition", "ServiceAccount", "Role"})
+				kind := pickS(r, []string{"MyKind", "OtherKind", "Role", "ClusterRole", "Namespace", "CustomResourceDefinition", "ServiceAccount", "Role",
+					"PriorityClass", "VolumeAttachment"})
 				name := pickS(r, fam)
 				if kind == "Namespace" {
 					name = pickS(r, []string{"ns1", "ns2", "ns3"})
@@ -639,11 +717,11 @@ func genTree(r *rand.Rand, f Feat) *Tree {
 
 func (t *Tree) genDirectives(r *rand.Rand, li int, L *KLayer, here []*GenRes) {
 	f := t.Feat
-	if f.Prefix && r.Intn(3) == 0 {
+	if f.Prefix && (r.Intn(3) == 0 || (f.AffixHeavy && r.Intn(2) == 0)) {
 		L.Prefix = pickS(r, []string{"p-", "dev-", "x"})
 		L.Kust["namePrefix"] = L.Prefix
 	}
-	if f.Suffix && r.Intn(3) == 0 {
+	if f.Suffix && (r.Intn(3) == 0 || (f.AffixHeavy && r.Intn(2) == 0)) {
 		L.Suffix = pickS(r, []string{"-s", "-v2", "z"})
 		L.Kust["nameSuffix"] = L.Suffix
 	}
@@ -659,8 +737,11 @@ func (t *Tree) genDirectives(r *rand.Rand, li int, L *KLayer, here []*GenRes) {
 		L.Kust["commonLabels"] = toObj(L.Labels)
 	}
 	if f.Labels && r.Intn(4) == 0 {
-		L.MetaLabels = map[string]string{pickS(r, []string{"team", "owner"}): pickS(r, []string{"a", "b"})}
-		L.MetaLabelsTmpl = r.Intn(2) == 0
+		mk := pickS(r, []string{"team", "owner", "team", "owner", "env", "tier"})
+		L.MetaLabels = map[string]string{mk: pickS(r, []string{"a", "b"})}
+		// a key that a commonLabels directive may also set is only written to metadata (no includeTemplates):
+		// overriding a selector key in the template alone would be a self-inflicted mismatch
+		L.MetaLabelsTmpl = r.Intn(2) == 0 && mk != "env" && mk != "tier"
 		e := Obj{"pairs": toObj(L.MetaLabels)}
 		if L.MetaLabelsTmpl {
 			e["includeTemplates"] = true
@@ -681,7 +762,7 @@ func (t *Tree) genPatches(r *rand.Rand, li int, L *KLayer) {
 	f := t.Feat
 	var visible []*GenRes
 	for _, g := range t.Res {
-		if g.Layer <= li && !g.Gen {
+		if t.Visible(g.Layer, li) && !g.Gen {
 			visible = append(visible, g)
 		}
 	}
@@ -715,7 +796,10 @@ func (t *Tree) genPatches(r *rand.Rand, li int, L *KLayer) {
 			// the replicas entry names the resource by its name *at this layer*; only original names are
 			// predictable here, so it is used when no inner layer renames
 			renamed := false
-			for j := g.Layer; j < li; j++ {
+			for _, j := range t.Chain(g.Layer) {
+				if j == li {
+					break
+				}
 				if t.Layers[j].Prefix != "" || t.Layers[j].Suffix != "" {
 					renamed = true
 				}
@@ -784,8 +868,10 @@ func (t *Tree) Write(fs filesys.FileSystem, root string) error {
 			return err
 		}
 		var resList []interface{}
-		if li > 0 && !t.BaseLast {
-			resList = append(resList, "../"+t.Layers[li-1].Dir)
+		if !t.BaseLast {
+			for _, c := range t.children(li) {
+				resList = append(resList, "../"+t.Layers[c].Dir)
+			}
 		}
 		for _, fn := range L.ResF {
 			var sb strings.Builder
@@ -813,11 +899,17 @@ func (t *Tree) Write(fs filesys.FileSystem, root string) error {
 			}
 			k[kk] = v
 		}
-		if li > 0 && t.BaseLast {
-			if useBases {
-				k["bases"] = []interface{}{"../" + t.Layers[li-1].Dir}
-			} else {
-				resList = append(resList, "../"+t.Layers[li-1].Dir)
+		if t.BaseLast {
+			var bl []interface{}
+			for _, c := range t.children(li) {
+				if useBases {
+					bl = append(bl, "../"+t.Layers[c].Dir)
+				} else {
+					resList = append(resList, "../"+t.Layers[c].Dir)
+				}
+			}
+			if len(bl) > 0 {
+				k["bases"] = bl
 			}
 		}
 		if len(resList) > 0 {
